@@ -365,15 +365,21 @@ def exact_worker(mode):
                 if not pr.value[0]:
                     bad = 'evaluate_exact differs from sgn(x-x_a) W(|x-x_a|) + sgn(x_b-x) W(|x_b-x|)'
             if bad:
-                mm = eng.dyadic_model(True, bits=3) or eng.feasible(True)[1]
-                vals = {k: str(v) for k, v in eng.model_inputs(mm).items() if v is not None}
-                if mode == 'at_a':
-                    vals['x'] = vals.get('xa')
-                elif mode == 'at_b':
-                    vals['x'] = vals.get('xb')
-                rp = dict(kind='exact', values=vals)
-                res['violations'].append(dict(signature='evaluate_exact', what='%s [%s]' % (bad, vals), replay=rp,
-                                              reproduced=replay(rp)))
+                # several different witnesses of the path: a wrong formula may coincide with the right one on a
+                # symmetric model (e.g. h_t = h_x)
+                rp, ok = None, False
+                for mm in eng.diverse_models(True, n=6, bits=4):
+                    vals = {k: str(v) for k, v in eng.model_inputs(mm).items() if v is not None}
+                    if mode == 'at_a':
+                        vals['x'] = vals.get('xa')
+                    elif mode == 'at_b':
+                        vals['x'] = vals.get('xb')
+                    rp = dict(kind='exact', values=vals)
+                    if replay(rp):
+                        ok = True
+                        break
+                res['violations'].append(dict(signature='evaluate_exact', what='%s [%s]' % (bad, rp and rp['values']),
+                                              replay=rp, reproduced=ok))
             elif len(res['samples']) < 2:
                 mm = eng.feasible(True)[1]
                 res['samples'].append(dict(evaluate_exact={k: str(v) for k, v in eng.model_inputs(mm).items()}))
